@@ -403,7 +403,7 @@ def run_case(args):
                 r = it.call("nnls_lawson_hanson", [S, G.Ptr(o2, 0), F(Fr(1, 10 ** 9)), 0, 0, 0, 0, 0, G.Ptr(cc, 0)])
             else: r = it.call(solver, [S, B, 0, G.Ptr(cc, 0)])
         except G.ExecError as ex:
-            ob("O1 the solver returns", False, "%s: %s" % (type(ex).__name__, ex)); return out
+            ob("O1 the solver returns", False, "%s: %s%s" % (type(ex).__name__, ex, getattr(ex, "loc", ""))); return out
         ob("O1 the solver returns", True)
         x = [v.num for v in r.obj.cells[0]["x"].obj.cells[:n]]
         eps = Fr(2) ** -52
